@@ -141,6 +141,12 @@ def make_problem(inst):
                 return self._times[np.array(own[variable], dtype=int)]
             return self._times
 
+        @property
+        def equidistant(self):
+            # problem-level flag "all time series are equidistant" (CSV/IO mixins set it); the
+            # transcription of the model rows must not depend on it
+            return bool(inst.get("equidistant", False))
+
         def interpolation_method(self, variable=None):
             return (inst.get("modes") or {}).get(variable, self.INTERPOLATION_LINEAR)
 
@@ -515,6 +521,7 @@ def gen_instance(rng, big=False, kind=None):
     inst["own_times"] = {}
     inst["bounds"] = {}
     inst["dyn"] = sorted(j for j in range(npar) if rng.random() < 0.25)
+    inst["equidistant"] = rng.random() < 0.3
     if rng.random() < 0.35:
         inst["npv"] = rng.randint(0, 2)
         inst["nev"] = rng.randint(0, 1)
@@ -543,7 +550,11 @@ def add_own_times(rng, inst):
             inner = [i for i in range(1, n - 1) if rng.random() < 0.4]
             if len(inner) == n - 2:
                 inner = inner[:-1]
-            inst["own_times"][u] = [0] + inner + [n - 1]
+            own = [0] + inner + [n - 1]
+            if n >= 4 and rng.random() < 0.5:
+                # force a NON-equidistant own grid also when the collocation grid is equidistant
+                own = sorted(set([0, rng.choice([1, n - 2]), n - 1]))
+            inst["own_times"][u] = own
             mode = rng.choice([0, 0, 1, 2])
             if mode:
                 inst["modes"][u] = mode
